@@ -5,6 +5,7 @@ import (
 	_ "github.com/ozontech/file.d/zz_verifharness/h1pipe"
 	_ "github.com/ozontech/file.d/zz_verifharness/h2batcher"
 	_ "github.com/ozontech/file.d/zz_verifharness/h3file"
+	_ "github.com/ozontech/file.d/zz_verifharness/h3offsets"
 	_ "github.com/ozontech/file.d/zz_verifharness/h4kafka"
 	_ "github.com/ozontech/file.d/zz_verifharness/h5http"
 	_ "github.com/ozontech/file.d/zz_verifharness/h6throttle"
@@ -12,5 +13,4 @@ import (
 	_ "github.com/ozontech/file.d/zz_verifharness/h8admit"
 	_ "github.com/ozontech/file.d/zz_verifharness/h9outputs"
 	_ "github.com/ozontech/file.d/zz_verifharness/hpool"
-	_ "github.com/ozontech/file.d/zz_verifharness/h3offsets"
 )
